@@ -7,6 +7,7 @@ package main
 // every frame that was not reverted.
 
 import (
+	cmn "github.com/haqq-network/haqq/precompiles/common"
 	"bytes"
 	"encoding/binary"
 	"encoding/json"
@@ -207,6 +208,18 @@ func (w *EvmWorld) pcCalldata(o Op, self common.Address) (common.Address, []byte
 	case "revoke":
 		bz, err := stakingABI.Pack("revoke", w.addrOf(o.Grantee, self), []string{stakingprecompile.DelegateMsg, stakingprecompile.UndelegateMsg})
 		return stakingPC, bz, err
+	case "ibcApprove":
+		// an ICS-20 authorization with one allocation (transfer/channel-0) for the named grantee
+		al := []cmn.ICS20Allocation{{SourcePort: "transfer", SourceChannel: "channel-0", SpendLimit: []cmn.Coin{{Denom: "aISLM", Amount: amt}}, AllowList: []string{}}}
+		bz, err := ics20ABI.Pack("approve", w.addrOf(o.Grantee, self), al)
+		return ics20PC, bz, err
+	case "ibcRevoke":
+		bz, err := ics20ABI.Pack("revoke", w.addrOf(o.Grantee, self))
+		return ics20PC, bz, err
+	case "ibcIncrease", "ibcDecrease":
+		name := map[string]string{"ibcIncrease": "increaseAllowance", "ibcDecrease": "decreaseAllowance"}[o.M]
+		bz, err := ics20ABI.Pack(name, w.addrOf(o.Grantee, self), "transfer", fmt.Sprintf("channel-%d", o.Val), "aISLM", amt)
+		return ics20PC, bz, err
 	case "ibcTransfer":
 		bz, err := ics20ABI.Pack("transfer", "transfer", "channel-0", "aISLM", amt, who, "haqq1receiveronotherside",
 			icsHeight{RevisionNumber: 1, RevisionHeight: 1_000_000}, uint64(0), "")
